@@ -341,7 +341,8 @@ Proof.
   { intros r [b ->]. exact I. }
   destruct x, y; simpl; try (destruct (o_itype o); exact I).
   - unfold cons_eq. destruct (cls_eqb _ _); [apply G, cons_body_eq_new|].
-    destruct (negb _); [exact I|]. destruct (_ && _); [apply G, cons_body_eq_new|exact I].
+    destruct (negb _); [exact I|]. destruct (_ && _); [apply G, cons_body_eq_new|].
+    destruct (_ || _); [exact I|apply G, cons_body_eq_new].
   - apply G, pd_eq_new.
   - unfold field_eq. destruct (negb _); [destruct (o_itype o); exact I|].
     apply G, andR_ok; [apply pd_eq_new|apply constructs_eq_new].
@@ -852,18 +853,41 @@ Qed.
 Lemma andR_congr a a' k k' : a = a' -> k = k' -> andR a k = andR a' k'.
 Proof. now intros -> ->. Qed.
 
-Theorem cons_sym_exact : forall o x y, exact o -> wf_cons x -> wf_cons y ->
+(* same class, or ignore_type=False, or two coordinate-like classes (whose conversion keeps
+   every component) *)
+Definition sym_scope (o : opts) (x y : cons) : Prop :=
+  cls_eqb (c_cls x) (c_cls y) || negb (o_itype o) || (bounded (c_cls x) && bounded (c_cls y)) = true.
+
+Theorem cons_sym_exact : forall o x y, exact o -> wf_cons x -> wf_cons y -> sym_scope o x y ->
   cons_eq New o x y = cons_eq New o y x.
 Proof.
-  intros o x y He (X1 & X2 & X3) (Y1 & Y2 & Y3).
+  intros o x y He (X1 & X2 & X3) (Y1 & Y2 & Y3) Sc.
   assert (B : cons_body_eq New o x y = cons_body_eq New o y x).
   { unfold cons_body_eq. repeat apply andR_congr; auto using pd_eq_sym, opt_pd_eq_sym, bounds_eq_sym;
       f_equal; apply option_eqb_sym, String.eqb_sym. }
   unfold cons_eq.
   assert (C : cls_eqb (c_cls x) (c_cls y) = cls_eqb (c_cls y) (c_cls x))
     by (destruct (c_cls x), (c_cls y); reflexivity).
-  rewrite C, B, (andb_comm (bounded (c_cls x))). reflexivity.
+  unfold sym_scope in Sc. rewrite C in Sc. rewrite C, B, (andb_comm (bounded (c_cls x))).
+  rewrite (andb_comm (bounded (c_cls x))) in Sc.
+  destruct (cls_eqb (c_cls y) (c_cls x)); auto. destruct (negb (o_itype o)); auto.
+  destruct (bounded (c_cls y) && bounded (c_cls x)); auto. discriminate.
 Qed.
+
+(* ignore_type across classes: the answer is that of comparing, within the class of self, with
+   the converted operand; without ignore_type two constructs of different classes are unequal *)
+Theorem cross_class_semantics : forall o x y,
+  cls_eqb (c_cls x) (c_cls y) = false -> p_ext (c_pd x) = false -> p_ext (c_pd y) = false ->
+  bounded (c_cls x) && bounded (c_cls y) = false ->
+  (o_itype o = false -> cons_eq New o x y = Some (Ok false)) /\
+  (o_itype o = true -> cons_eq New o x y = cons_eq New o x (convert (c_cls x) y) /\
+                       c_cls (convert (c_cls x) y) = c_cls x).
+Proof.
+  intros o x y D Ex Ey Bd. unfold cons_eq at 1 2. rewrite D, Bd, Ex, Ey. cbn [orb].
+  split; intros E; rewrite E; cbn [negb]; auto. split; auto.
+  unfold cons_eq. cbn [c_cls convert]. destruct (c_cls x); reflexivity.
+Qed.
+
 
 Theorem data_sym_exact : forall o x y, exact o ->
   top_eq New o (TData x) (TData y) = top_eq New o (TData y) (TData x).
@@ -2045,4 +2069,14 @@ Proof.
   - unfold wf_cons, wf_pd, wf_opd; simpl. splits; repeat constructor; simpl; intuition discriminate.
   - simpl. tauto.
   - simpl. tauto.
+Qed.
+
+Lemma cross_class_asymmetry_refuted : exists o x y,
+  exact o /\ wf_cons x /\ wf_cons y /\ cons_eq New o x y = Some (Ok true) /\ cons_eq New o y x = Some (Ok false).
+Proof.
+  eexists _, _, _. splits; try exact (proj1 cross_class_asymmetry_witness);
+    try exact (proj2 cross_class_asymmetry_witness).
+  - split; split; simpl; lia.
+  - unfold wf_cons, wf_pd, wf_opd; simpl. splits; auto. repeat constructor; simpl; intuition.
+  - unfold wf_cons, wf_pd, wf_opd; simpl. splits; auto. repeat constructor; simpl; intuition.
 Qed.
